@@ -9,7 +9,8 @@
 EXTENDS GridSegment, Json
 CONSTANT M
 VARIABLES dl
-DCases == [a : 1..4, b : 1..4, ys : Coord, ye : Coord, dir : {"eastward", "westward"}]
+\* as / ts: altitude and time lattice coordinates of the start point (the end point has 3 / 5)
+DCases == [a : 1..4, b : 1..4, ys : Coord, ye : Coord, dir : {"eastward", "westward"}, as : {1, 6}, ts : {2, 7}]
 DInit == dl \in DCases /\ seg = <<0, 0, 0, 0>>
 DNext == FALSE /\ UNCHANGED <<dl, seg>>
 DSpec == DInit /\ [][DNext]_<<dl, seg>>
@@ -23,6 +24,8 @@ DConservation == Eq(SumShares(Pieces(Leg1)), I(1)) /\ Eq(SumShares(Pieces(Leg2))
 SidesSeparate ==
   /\ \A j \in DOMAIN Pieces(Leg1) : (dl.dir = "eastward") = (Pieces(Leg1)[j].cx < M \div Q)
   /\ \A j \in DOMAIN Pieces(Leg2) : (dl.dir = "eastward") = (Pieces(Leg2)[j].cx >= M \div Q)
+\* every piece of both legs carries the altitude / time cell of the segment's start point
 EmitD == PrintT("@@" \o ToJson([c |-> dl, xs |-> Xs, xe |-> Xe, leg1 |-> Pieces(Leg1), leg2 |-> Pieces(Leg2),
+                                acell |-> CellOf(I(dl.as)), tcell |-> CellOf(I(dl.ts)),
                                 len1sq |-> Len2(Leg1), len2sq |-> Len2(Leg2)]))
 =============================================================================
